@@ -27,6 +27,7 @@ import (
 	tcpip "github.com/brewlin/net-protocol/protocol"
 	"github.com/brewlin/net-protocol/protocol/network/ipv4"
 	"github.com/brewlin/net-protocol/protocol/transport/tcp"
+	"github.com/brewlin/net-protocol/stack"
 )
 
 var peer4 = []byte{10, 0, 0, 2}
@@ -477,33 +478,38 @@ func (w *world) passive(out *bufio.Writer, kinds map[string]int) {
 			t = netx.TCPSeg{Seq: irs + 1, Ack: iss + 1, Flags: []byte{0, netx.FlagFin, netx.FlagPsh}[w.r.Intn(3)]}
 		}
 		w.inject(t)
-		// synchronise on the marker's reset
-		m := w.marker(k)
-		w.inject(m)
+		// synchronise on the half-open endpoint itself (found through the demuxer): wait until the
+		// goroutine serving its segment queue is parked again, or it was accepted, or it is gone
+		id := stack.TransportEndpointID{LocalPort: w.lport, LocalAddress: tcpip.Address(stack4), RemotePort: peerPort, RemoteAddress: tcpip.Address(peer4)}
 		var got []netx.TCPSeg
-		dl := time.Now().Add(1500 * time.Millisecond)
-		seen := false
-		for !seen && time.Now().Before(dl) {
-			for _, f := range w.frames() {
-				if f.Flags == netx.FlagRst|netx.FlagAck && f.Seq == m.Ack {
-					seen = true
-					continue
-				}
-				got = append(got, f)
-			}
-			if !seen {
+		dl := time.Now().Add(10 * time.Second)
+		seen, gone := false, false
+		for i := 0; !seen && !gone && !accepted && time.Now().Before(dl); i++ {
+			x := w.n.S.VerifLookup(ipv4.ProtocolNumber, tcp.ProtocolNumber, id)
+			switch tcp.VerifHalfOpen(x) {
+			case 0:
+				gone = true
+			case 1:
+				seen = true
+			case 3:
 				if e, _, err := lep.Accept(); err == nil {
 					accepted = true
 					e.Close()
-					break
 				}
-				time.Sleep(100 * time.Microsecond)
+			}
+			if !seen && !gone && !accepted {
+				if i%64 == 63 {
+					time.Sleep(50 * time.Microsecond)
+				} else {
+					runtime.Gosched()
+				}
 			}
 		}
+		got = append(got, w.frames()...)
 		st := 0 // 0 = still half-open (marker answered), 1 = accepted, 2 = gone/unknown
 		if accepted {
 			st = 1
-		} else if !seen {
+		} else if gone || !seen {
 			st = 2
 		}
 		steps = append(steps, fmt.Sprintf("(%s, 0, %s, %d)", coqSeg(t), coqFrames(got), st))
